@@ -132,7 +132,8 @@ def run_serve_aio(cfg: Dict[str, Any], programs: Dict[str, list],
             self.log.add("shutdown_triggered")
             self.trigger.set()
 
-        async def connect(self) -> SClient:
+        async def connect(self, read: bool = True) -> SClient:
+            """read=False: a client that never reads what the server sends it."""
             c = SClient(len(res.clients), self.log)
             res.clients.append(c)
             try:
@@ -161,7 +162,10 @@ def run_serve_aio(cfg: Dict[str, Any], programs: Dict[str, list],
                     c.eof_at = loop.time()
                     self.log.add("server_eof", conn=c.cid)
 
-            self.readers.append(loop.create_task(pump(), name=f"client-{c.cid}"))
+            if read:
+                self.readers.append(loop.create_task(pump(), name=f"client-{c.cid}"))
+            else:
+                c._keep = (reader, writer)  # keeps the socket open, unread
             return c
 
     try:
@@ -264,7 +268,7 @@ def run_serve_trio(cfg: Dict[str, Any], programs: Dict[str, list],
             self.log.add("shutdown_triggered")
             self.trigger.set()
 
-        async def connect(self) -> SClient:
+        async def connect(self, read: bool = True) -> SClient:
             c = SClient(len(res.clients), self.log)
             res.clients.append(c)
             try:
@@ -321,7 +325,8 @@ def run_serve_trio(cfg: Dict[str, Any], programs: Dict[str, list],
                     self.log.add("server_eof", conn=c.cid)
 
             self.nursery.start_soon(writer)
-            self.nursery.start_soon(pump)
+            if read:
+                self.nursery.start_soon(pump)
             await trio.testing.wait_all_tasks_blocked()
             return c
 
